@@ -452,6 +452,8 @@ class LenEv:
                 env[s.target.id] = l_add(cur, v)
             elif isinstance(s.op, ast.Add) and isinstance(cur, Bytes) and isinstance(v, Bytes):
                 env[s.target.id] = Bytes(l_add(cur.length, v.length))
+            elif isinstance(cur, dict) and not isinstance(v, Bytes):
+                env[s.target.id] = Opaque(s.target.id)  # an integer accumulated from values outside the domain: unknown number, not a length
             elif isinstance(cur, (dict, Bytes)):
                 raise LenUnsupported(f"augmented assignment {norm_text(s)[:50]}")
             else:
